@@ -1,19 +1,34 @@
 PROP = {
-    'id': 'C17',
-    'specs': ['specs.tutte'],
-    'functions': ['mouette.processing.parametrization.tutte.TutteEmbedding._initialize_boundary'],
-    'level': 'other',
-    'explanation': 'Deductive part: for the square target and every border length n >= 4 the border parametrisation puts the four corners at the documented indices and every other border '
-                   'vertex strictly inside its side, strictly monotone along the border order - hence pairwise distinct positions on the convex target (clause a, square). '
-                   'Interior = weighted average (linear solve through scipy), circle positions (injectivity of cos/sin), orientation of all triangles (Tutte/Floater theorem) and '
-                   'the Euler-characteristic gate are decided only by the bounded native contract, which is not a proof.',
-    'trusted_base': ['A1', 'A2', 'A3', 'A7 np.zeros', 'mesh.boundary_vertices is a list (C01)'],
-    'bounded': [
-        {'name': 'all', 'function': 'TutteEmbedding.run / flat_mesh (circle, square, custom; uniform and cotan weights; per-vertex and per-corner)', 'engine': 'Br (native run-time contract)',
-         'bound': '314 disks (polygons, fans n=3..30, grids 2x5..6x7 regular/jittered with ears, Delaunay 6..45 points incl. non-convex outlines with chords, non-planar caps; relabelled / '
-                  'face-rotated / flipped variants) x 3 boundary modes x 2 weightings x 2 storages = 1472 clause checks: border on the target at distinct positions in loop order, '
-                  'interior = weighted average with independently computed weights, all triangles same strict orientation (when weights >= 0), corner == vertex outputs, 8 non-disks rejected'},
-    ],
-    'not_decided': ['clauses (b)-(e) and the circle case of (a) for all disks: bounded only', 'clause (c) is Tutte/Floater\'s theorem given (a), (b): cited, not proved'],
-    'math': ['Tutte / Floater: a convex-combination map of a 3-connected disk onto a convex polygon with distinct border positions in order is an embedding'],
+ "id": "C17",
+ "specs": [
+  "specs.tutte"
+ ],
+ "functions": [
+  "mouette.processing.parametrization.tutte.TutteEmbedding._initialize_boundary",
+  "mouette.processing.parametrization.tutte.TutteEmbedding._initialize_boundary#circle"
+ ],
+ "level": "other",
+ "explanation": "Deductive part: for the square target and every border length n >= 4 the border parametrisation puts the four corners at the documented indices and every other border vertex strictly inside its side, strictly monotone along the border order - hence pairwise distinct positions on the convex target (clause a, square). Interior = weighted average (linear solve through scipy), circle positions (injectivity of cos/sin), orientation of all triangles (Tutte/Floater theorem) and the Euler-characteristic gate are decided only by the bounded native contract, which is not a proof. Circle target: every border vertex is placed on the unit circle (sin^2+cos^2=1); distinctness of the circle positions is bounded only.",
+ "trusted_base": [
+  "A1",
+  "A2",
+  "A3",
+  "A7 np.zeros",
+  "mesh.boundary_vertices is a list (C01)"
+ ],
+ "bounded": [
+  {
+   "name": "all",
+   "function": "TutteEmbedding.run / flat_mesh (circle, square, custom; uniform and cotan weights; per-vertex and per-corner)",
+   "engine": "Br (native run-time contract)",
+   "bound": "314 disks (polygons, fans n=3..30, grids 2x5..6x7 regular/jittered with ears, Delaunay 6..45 points incl. non-convex outlines with chords, non-planar caps; relabelled / face-rotated / flipped variants) x 3 boundary modes x 2 weightings x 2 storages = 1472 clause checks: border on the target at distinct positions in loop order, interior = weighted average with independently computed weights, all triangles same strict orientation (when weights >= 0), corner == vertex outputs, 8 non-disks rejected"
+  }
+ ],
+ "not_decided": [
+  "clauses (b)-(e) and the circle case of (a) for all disks: bounded only",
+  "clause (c) is Tutte/Floater's theorem given (a), (b): cited, not proved"
+ ],
+ "math": [
+  "Tutte / Floater: a convex-combination map of a 3-connected disk onto a convex polygon with distinct border positions in order is an embedding"
+ ]
 }
